@@ -18,11 +18,16 @@ package preprocess
 
 import (
 	"go.uber.org/nilaway/util/analysishelper"
+	"go/ast"
 )
 
 // Preprocessor handles different preprocessing logic for different types of input.
 type Preprocessor struct {
 	pass *analysishelper.EnhancedPass
+	// taggedSwitchCaseExprs holds the case expressions of the tagged switch statements (`switch tag { case e: }`)
+	// of the function being preprocessed. The CFG builder places such an expression last in a two-successor block
+	// although the branch is taken on `tag == e`, not on `e`: it must not be canonicalized as a condition.
+	taggedSwitchCaseExprs map[ast.Node]bool
 }
 
 // New returns a new Preprocessor.
